@@ -98,7 +98,7 @@ def race_sig(block):
 def run_shard(binpath, prop, tier, seed, outdir, shard, nshards, timeout_s, race):
     env = dict(ENV)
     if race:
-        env["GORACE"] = "halt_on_error=0 log_path=%s/race.%d" % (outdir, shard)
+        env["GORACE"] = "halt_on_error=0 exitcode=0 log_path=%s/race.%d" % (outdir, shard)
     env["GOTRACEBACK"] = "all"
     so = open(os.path.join(outdir, "stdout.%d" % shard), "w")
     se = open(os.path.join(outdir, "stderr.%d" % shard), "w")
